@@ -152,28 +152,31 @@ func New(config ...Config) fiber.Handler {
 				if cfg.Storage != nil {
 					e.body = manager.getRaw(key + "_body")
 				}
-				// Set response headers from cache
-				c.Response().SetBodyRaw(e.body)
-				c.Response().SetStatusCode(e.status)
-				c.Response().Header.SetContentTypeBytes(e.ctype)
-				if len(e.cencoding) > 0 {
-					c.Response().Header.SetBytesV(fiber.HeaderContentEncoding, e.cencoding)
-				}
-				for k, v := range e.headers {
-					c.Response().Header.SetBytesV(k, v)
-				}
-				// Set Cache-Control header if enabled
-				if cfg.CacheControl {
-					maxAge := strconv.FormatUint(e.exp-ts, 10)
-					c.Set(fiber.HeaderCacheControl, "public, max-age="+maxAge)
-				}
+				// The separately stored body can be gone while the entry is still there: that is not a hit
+				if cfg.Storage == nil || e.body != nil {
+					// Set response headers from cache
+					c.Response().SetBodyRaw(e.body)
+					c.Response().SetStatusCode(e.status)
+					c.Response().Header.SetContentTypeBytes(e.ctype)
+					if len(e.cencoding) > 0 {
+						c.Response().Header.SetBytesV(fiber.HeaderContentEncoding, e.cencoding)
+					}
+					for k, v := range e.headers {
+						c.Response().Header.SetBytesV(k, v)
+					}
+					// Set Cache-Control header if enabled
+					if cfg.CacheControl {
+						maxAge := strconv.FormatUint(e.exp-ts, 10)
+						c.Set(fiber.HeaderCacheControl, "public, max-age="+maxAge)
+					}
 
-				c.Set(cfg.CacheHeader, cacheHit)
+					c.Set(cfg.CacheHeader, cacheHit)
 
-				mux.Unlock()
+					mux.Unlock()
 
-				// Return response
-				return nil
+					// Return response
+					return nil
+				}
 			}
 		}
 
